@@ -598,3 +598,10 @@ func (core JApiCore) addJsonRpcParams(d *directive.Directive) *jerr.JApiError {
 func (core JApiCore) addJsonRpcResult(d *directive.Directive) *jerr.JApiError {
 	return core.addJsonRpcSchema(d, core.catalog.AddJsonRpcResult)
 }
+
+// addTags checks the Tags directive itself. The tags are attached to the
+// interactions by the HTTP and JSON-RPC methods, but the Tags directive of a URL
+// is never looked at if all the methods of the URL have their own Tags.
+func (core JApiCore) addTags(d *directive.Directive) *jerr.JApiError {
+	return core.catalog.CheckTagsDirective(d)
+}
